@@ -118,6 +118,55 @@ theorem emittedOps_prior_irrelevant (sites : List SendSite) (h : ∀ s ∈ sites
     have hs := h s (List.mem_cons_self ..)
     cases hg : s.guard <;> simp_all
 
+/-! ## the batch semantics of the handler: which queued files get a line
+
+  `make_ignore_handler` collects ALL operations of one command, writes the directory lines, and then has to decide
+  which of the queued files still need a line of their own.  How it decides is regenerated from the body of the
+  function (Gen/IgnoreSends.lean `HANDLER_FILE_FILTER`, lib/c16_extract.py). -/
+
+/-- what happens to the queued files between `update_dir_gitignores` and `update_file_gitignores`:
+    `none` = nothing (checked against the rules read at the start only);
+    `reloadCheck` = the rules are read again (`let gitignore = build_gitignore(…)`) and `update_file_gitignores` checks
+      every file against them — the code;
+    `startsWithComponents` = files below a queued directory are dropped, containment tested on path COMPONENTS
+      (`XvcPath::starts_with`, `RelativePath::starts_with`);
+    `startsWithStr` = the same with a test on the path TEXT (`XvcPath::starts_with_str`, `str::starts_with`);
+    `other` = anything else: nothing is known, counts as "no file line is written" -/
+inductive FileFilter where
+  | none | reloadCheck | startsWithComponents | startsWithStr | other
+  deriving DecidableEq, Repr
+
+/-- `f` lies in the directory `d`, component-wise: what a line `/name/` in the `.gitignore` of `d`'s parent means to git -/
+def insideDir (d f : Target) : Bool := (d.dir ++ [d.name]).isPrefixOf f.dir
+
+/-- the path text of `f` starts with the path text of `d` (`out/src/m.bin` "starts with" `out/src/m`) -/
+def strInside (d f : Target) : Bool := d.pathStr.isPrefixOf f.pathStr
+
+/-- the handler with an arbitrary rule `drop dirs f` for leaving a queued file out after the directory lines of the
+    queued directories `dirs` were written; the files that remain are checked against the rules read at the start -/
+def handlerBatch (drop : List Target → Target → Bool) (date : Str) (dirOps fileOps : List Target) (t : Tree) : Tree :=
+  let r0 := gitRules t
+  let dirs := (dedup dirOps.reverse).reverse.filter (fun d => check r0 d.pathStr == .noMatch)
+  let files := (dedup fileOps.reverse).reverse.filter (fun f => check r0 f.pathStr == .noMatch)
+  let t1 := updateDirGitignores r0 date dirs t
+  updateFileGitignores r0 date (files.filter (fun f => !drop dirs f)) t1
+
+/-- the handler for each of the recognised filters -/
+def handlerUpdateWith (filt : FileFilter) (date : Str) (dirOps fileOps : List Target) (t : Tree) : Tree :=
+  match filt with
+  | .reloadCheck => handlerUpdate date dirOps fileOps t
+  | .none => handlerBatch (fun _ _ => false) date dirOps fileOps t
+  | .startsWithComponents => handlerBatch (fun ds f => ds.any (insideDir · f)) date dirOps fileOps t
+  | .startsWithStr => handlerBatch (fun ds f => ds.any (strInside · f)) date dirOps fileOps t
+  | .other => updateDirGitignores (gitRules t) date
+      ((dedup dirOps.reverse).reverse.filter (fun d => check (gitRules t) d.pathStr == .noMatch)) t
+
+theorem insideDir_spec (d f : Target) (h : insideDir d f = true) : ∃ rest, f.dir = d.dir ++ d.name :: rest := by
+  unfold insideDir at h
+  rw [List.isPrefixOf_iff_prefix] at h
+  obtain ⟨rest, hr⟩ := h
+  exact ⟨rest, by rw [← hr]; simp⟩
+
 theorem mem_opFiles (ops : List IgnoreOp) (x : Target) : x ∈ opFiles ops ↔ IgnoreOp.file x ∈ ops := by
   unfold opFiles
   rw [List.mem_filterMap]
